@@ -7,7 +7,7 @@ nested in a scope `outer`, so two enclosing scopes wait for the stream) and cons
   outside  after `create` was left, outside every scope
   task     in another task (plain or ctx.spawn'ed) that entered its own scope `other` (R1=31)
 fully, with an early break after k items (abandoned), or with an explicit aclose() after k items.
-The generator yields 0-5 unique items then ends or raises; before every yield it probes the state it sees,
+The generator yields 0-5 unique items then ends, raises, or ends with a CancelledError of its own; before every yield it probes the state it sees,
 optionally from inside a nested scope of its own (R1=21), records metrics, or re-yields an inner stream.
 The consumer probes its (state, metrics scope, task group) triple before the stream, between items, and
 after it ended / was closed / was abandoned.
@@ -140,6 +140,10 @@ def run_case(R: Recorder, case: dict[str, Any], verbose: bool = False) -> None:
         if end == "raise":
             log["gen_exc"] = GenErr("generator failed")
             raise log["gen_exc"]
+        if end == "raise-cancelled":
+            # the generator itself ends with a CancelledError (e.g. it awaited something that was cancelled); the consumer is not cancelled
+            log["gen_exc"] = asyncio.CancelledError("generator ended cancelled")
+            raise log["gen_exc"]
 
     holder: dict[str, Any] = {}
 
@@ -265,7 +269,7 @@ def run_case(R: Recorder, case: dict[str, Any], verbose: bool = False) -> None:
     produced, received, terminal = log["produced"], log["received"], log["terminal"]
     total = n_items + (2 if inner and n_items > 0 else 0)
     if k is None or k > total:
-        want_term = ("raise", log["gen_exc"]) if end == "raise" else ("end", None)
+        want_term = ("raise", log["gen_exc"]) if end in ("raise", "raise-cancelled") else ("end", None)
         ok = len(received) == len(produced) and all(a is b for a, b in zip(received, produced)) and len(produced) == total and terminal is not None and terminal[0] == want_term[0] and (terminal[1] is want_term[1])
         kind = "sequence-differs" if received != produced or len(produced) != total else "terminal-outcome-differs"
     else:
@@ -336,7 +340,7 @@ def run_case(R: Recorder, case: dict[str, Any], verbose: bool = False) -> None:
 def cases(tier: str, rng: random.Random):  # noqa: ANN201
     for place in ("same", "sibling", "outside", "task"):
         for n in (0, 1, 2, 3):
-            for end in ("stop", "raise"):
+            for end in ("stop", "raise", "raise-cancelled"):
                 modes = ["full"] + [f"break@{k}" for k in range(1, n + 1)] + [f"aclose@{k}" for k in range(1, n + 1)]
                 for mode in modes:
                     for nested_at in ([], [0], [n - 1] if n > 1 else []):
@@ -344,7 +348,7 @@ def cases(tier: str, rng: random.Random):  # noqa: ANN201
     for _ in range({"quick": 300, "thorough": 20000}[tier]):
         n = rng.randint(1, 5)
         total = n + 2
-        yield {"items": n, "end": rng.choice(["stop", "raise"]), "nested_at": sorted(rng.sample(range(n), rng.randint(0, min(2, n)))), "records": rng.random() < 0.5, "inner": rng.random() < 0.4,
+        yield {"items": n, "end": rng.choice(["stop", "raise", "raise-cancelled"]), "nested_at": sorted(rng.sample(range(n), rng.randint(0, min(2, n)))), "records": rng.random() < 0.5, "inner": rng.random() < 0.4,
                "falsy": rng.random() < 0.4, "deep": rng.random() < 0.4, "place": rng.choice(["same", "sibling", "outside", "task"]), "mode": rng.choice(["full", "full", f"break@{rng.randint(1, total)}", f"aclose@{rng.randint(1, total)}"]), "via": rng.choice(["plain", "ctx"])}
 
 
